@@ -84,13 +84,16 @@ def run_family_check(ctx, pid, n_quick, n_thorough, want=("report",), config_hoo
             ctx.extra.setdefault("other_clauses_rejected", {})
             ctx.extra["other_clauses_rejected"][clause] = ctx.extra["other_clauses_rejected"].get(clause, 0) + 1
             continue
-        ctx.violation(pc, signature(pid, pc, e, k), dict(RF.brief(e, k), trace_clause=clause), case=dict(C=e["C"]))
+        ctx.violation(pc, signature(pid, pc, e, k), dict(RF.brief(e, k), trace_clause=clause),
+                      case=dict(C=e["C"], replay=e.get("_replay"), want=e.get("want")))
     for ev in failed[:50]:
         # a run the command line refused or that crashed: only a crash is an observation of the code
         if ev["failed"]["exit"] == -3:
-            ctx.violation("OutputFilesAreCompleteRecords", f"{pid}:garbled-output-file", dict(argv=ev["argv"], failed=ev["failed"], config=ev["C"]))
+            ctx.violation("OutputFilesAreCompleteRecords", f"{pid}:garbled-output-file", dict(argv=ev["argv"], failed=ev["failed"], config=ev["C"]),
+                          case=dict(C=ev["C"], replay=ev.get("_replay")))
         if ev["failed"]["exit"] == -1:
-            ctx.violation("RunCompletes", f"{pid}:crash:" + ev["failed"]["exc"][:60], dict(argv=ev["argv"], failed=ev["failed"], config=ev["C"]))
+            ctx.violation("RunCompletes", f"{pid}:crash:" + ev["failed"]["exc"][:60], dict(argv=ev["argv"], failed=ev["failed"], config=ev["C"]),
+                          case=dict(C=ev["C"], replay=ev.get("_replay")))
     ctx.extra["cli_refusals"] = [dict(argv=ev["argv"], err=ev["failed"]["errors"][:1]) for ev in failed if ev["failed"]["exit"] != -1][:5]
     for e in events[:3]:
         ctx.sample(RF.brief(e, 1), limit=3)
@@ -103,6 +106,36 @@ def run_family_check(ctx, pid, n_quick, n_thorough, want=("report",), config_hoo
 
 
 def replay(ctx, path):
+    """Re-run the stored run (same configuration, same reads, same schedule seed) on the current tree and judge it again."""
+    import os
+    from harness import gen_run as GR
     rp = json.load(open(path))
-    print(json.dumps(rp["observation"], indent=1)[:4000])
-    ctx.violation(rp["clause"], rp["signature"], rp["observation"])
+    pid = ctx.pid
+    snap = (rp.get("case") or {}).get("replay")
+    if not snap:
+        print("replay: this file predates re-executable replays; stored observation:")
+        print(json.dumps(rp["observation"], indent=1)[:3000])
+        raise SystemExit(2)
+    C = snap["C"]
+    r1 = [tuple(x) for x in snap["r1"]]
+    r2 = [tuple(x) for x in snap["r2"]]
+    ev, sampler, res = GR.observe_run(C, r1, r2, os.path.join(ctx.scratch, "run"))
+    ev["C"] = {k: v for k, v in C.items() if k not in ("ads1", "ads2", "sched_weights")}
+    if "failed" in ev:
+        print("replay: the run fails:", ev["failed"])
+        if ev["failed"]["exit"] == -3:
+            ctx.violation("OutputFilesAreCompleteRecords", f"{pid}:garbled-output-file", dict(argv=ev["argv"], failed=ev["failed"]))
+        if ev["failed"]["exit"] == -1:
+            ctx.violation("RunCompletes", f"{pid}:crash:" + ev["failed"]["exc"][:60], dict(argv=ev["argv"], failed=ev["failed"]))
+        return
+    ev["id"] = 0
+    ev["want"] = (rp.get("case") or {}).get("want") or (["report"] + (["info"] if C.get("info") else []))
+    out = GR.validate_runs(ctx, [ev], {0: sampler})
+    seen = set()
+    for clause, k in out.get(0, []):
+        pc = prop_clause(pid, clause)
+        if pc is None or (pc, k) in seen:
+            continue
+        seen.add((pc, k))
+        ctx.violation(pc, signature(pid, pc, ev, k), dict(RF.brief(ev, k), trace_clause=clause))
+    print(f"replay: run re-executed ({ev['argv']}); {len(seen)} clause(s) of {pid} rejected")
